@@ -98,6 +98,26 @@ func init() {
 		}
 		return c64(ex.cfg.Params[i])
 	}
+	intrinsics[vrt+"SParam"] = func(ex *Exec, st *State, fr *Frame, c *ssa.Call, a []Value) Value {
+		i := ex.intArg(st, a[0], "SParam index")
+		if i >= len(ex.cfg.SParams) {
+			panic(engineErr("SParam(%d) but job has %d string parameters", i, len(ex.cfg.SParams)))
+		}
+		return strConst(ex.cfg.SParams[i])
+	}
+	intrinsics[vrt+"ModExpBytes"] = func(ex *Exec, st *State, fr *Frame, c *ssa.Call, a []Value) Value {
+		toBig := func(v Value, what string) *Term {
+			bs := ex.readBytes(st, v.(*SliceVal), what)
+			if len(bs) == 0 {
+				return mkBV(bigW, 0)
+			}
+			return ex.bigFromBytes(bs)
+		}
+		b, e, m := toBig(a[0], "modexp base"), toBig(a[1], "modexp exponent"), toBig(a[2], "modexp modulus")
+		n := ex.intArg(st, a[3], "modexp output length")
+		r := ex.modexp(st, b, e, m)
+		return ex.newBytes(st, splitBytes(mkExtract(8*n-1, 0, r), n))
+	}
 	intrinsics[vrt+"U8"] = func(ex *Exec, st *State, fr *Frame, c *ssa.Call, a []Value) Value {
 		return ex.drawScalar(st, "u8", 8)
 	}
@@ -301,6 +321,17 @@ func init() {
 		for _, d := range st.draws {
 			if d.Kind == "rand" {
 				o.elems = append(o.elems, ex.newBytes(st, d.ts))
+			}
+		}
+		n := c64(len(o.elems))
+		return &SliceVal{obj: o.id, off: c64(0), len: n, cap: n, elem: bt}
+	}
+	intrinsics[vrt+"RandIntLog"] = func(ex *Exec, st *State, fr *Frame, c *ssa.Call, a []Value) Value {
+		bt := types.NewSlice(types.Typ[types.Uint8])
+		o := st.newObject(objArr, bt)
+		for _, d := range st.draws {
+			if d.Kind == "randint" {
+				o.elems = append(o.elems, ex.newBytes(st, splitBytes(d.ts[0], bigW/8)))
 			}
 		}
 		n := c64(len(o.elems))
@@ -643,7 +674,7 @@ func init() {
 		if len(bs) == 0 {
 			t = mkBV(bigW, 0)
 		} else {
-			t = mkZext(bigW, joinBytes(bs))
+			t = ex.bigFromBytes(bs)
 		}
 		ex.setBig(st, a[0].(*Ptr), t)
 		return a[0]
@@ -692,7 +723,21 @@ func init() {
 			}
 			conds[l] = mkAnd(lo, hi)
 		}
-		l := ex.choose(st, conds, true)
+		exhaustive := true
+		if len(ex.cfg.BytesLens) > 0 {
+			// bounded: only the listed minimal lengths are explored (stated in the evidence)
+			keep := map[int]bool{}
+			for _, l := range ex.cfg.BytesLens {
+				keep[l] = true
+			}
+			for l := range conds {
+				if !keep[l] {
+					conds[l] = mkBool(false)
+				}
+			}
+			exhaustive = false
+		}
+		l := ex.choose(st, conds, exhaustive)
 		if l == 0 {
 			return ex.newBytes(st, nil)
 		}
@@ -1042,6 +1087,21 @@ func (ex *Exec) newBig(st *State, v *Term) *Ptr {
 	o.val = &StructVal{}
 	o.ext = &bigExt{val: v}
 	return &Ptr{obj: o.id}
+}
+
+// bigFromBytes: big-endian octets to a big integer term.  The fixed-length image of a modexp result
+// (low octets of a value known to be below its modulus) is recognised and mapped back to the value.
+func (ex *Exec) bigFromBytes(bs []*Term) *Term {
+	j := joinBytes(bs)
+	if j.op == OpExtract && j.b == 0 {
+		x := j.args[0]
+		if x.sort.W == bigW && x.op == OpUF && x.name == "modexp" {
+			if mv, ok := x.args[2].ConstBig(); ok && mv.Sign() > 0 && mv.BitLen() <= j.a+1 {
+				return x
+			}
+		}
+	}
+	return mkZext(bigW, j)
 }
 
 // modexp: uninterpreted, with result < m for m > 0 and the commutation instance
